@@ -704,10 +704,15 @@ func genVfy(c *ctx, emit func(string)) {
 	for _, l := range vfyFixed {
 		emit(l)
 	}
-	// opt-in concurrency stress (see vfy_race.go)
-	if ms := os.Getenv("VFY_RACE_MS"); ms != "" {
-		emit("#race " + ms)
+	// implementation-only regression case: StoreLogs vs concurrent compaction (vfy_race.go)
+	ms := "2000"
+	if c.tier == "thorough" {
+		ms = "10000"
 	}
+	if v := os.Getenv("VFY_RACE_MS"); v != "" {
+		ms = v
+	}
+	emit("#race " + ms)
 	for i := 0; i < c.n; i++ {
 		kind := "m"
 		if r.Intn(walShare) == 0 {
